@@ -305,6 +305,14 @@ def rw_for_ref_pattern(text):
         cnt += 1
         e = m.group(2).lstrip("&")
         return "for __i_%s in 0..%s.len() { let %s = %s[__i_%s];" % (m.group(1), e, m.group(1), e, m.group(1))
+    pat4 = re.compile(r"for\s+&(\w+)\s+in\s+([\w\.]+?)\.iter\(\)\.rev\(\)\s*\{")
+
+    def r4(m):
+        nonlocal cnt
+        cnt += 1
+        x, e = m.group(1), m.group(2)
+        return "let mut __r_%s: usize = %s.len(); while __r_%s > 0 { __r_%s -= 1; let %s = %s[__r_%s];" % (x, e, x, x, x, e, x)
+    text = pat4.sub(r4, text)
     text = pat1.sub(r1, text)
     text = pat3.sub(r3, text)
     text = pat2.sub(r2, text)
@@ -363,13 +371,19 @@ def rw_drop_if_debug(text):
     return text, cnt
 
 
+def rw_drop_crate_use(text):
+    """function-local `use crate::...;` imports: the imported items are provided by the unit itself."""
+    return re.subn(r"(?m)^[ \t]*use crate::[^;]*;[ \t]*\n", "", text)
+
+
 GENERIC = [
+    ("drop function-local `use crate::..;` imports", rw_drop_crate_use),
     ("drop #[cfg(feature=..)]-guarded debug statements", rw_drop_cfg_verbose),
     ("drop eprintln!/println! statements", rw_drop_prints),
     ("crate::env_cache::*() debug switches -> false", rw_env_cache),
     ("drop dead `if <debug switch> { .. }` blocks", rw_drop_if_debug),
     ("anyhow::bail!(..) -> return Err(AnyErr); anyhow!(..) -> AnyErr", rw_anyhow),
-    ("for &x in slice / for (i,&x) in slice.iter().enumerate() -> indexed loop", rw_for_ref_pattern),
+    ("for &x in slice / for (i,&x) in slice.iter().enumerate() -> indexed loop; for &x in v.iter().rev() -> reverse index while-loop", rw_for_ref_pattern),
 ]
 
 
